@@ -111,10 +111,14 @@ def check_case(case) -> Result:
         p = 15.0 + case["frac"] * (pb - 15.0) * (1 - 1e-12)
     else:
         p = 15.0 + case["frac"] * (2.5 * pb - 15.0)
+        if 0 < pb - p < 1e-12 * pb:
+            p = pb * (1.0 - 1e-12)
     form = case.get("p_form", "float")
     if form in ("int", "np.int64", "np.int32", "0d-int64") and where not in ("pb", "pb-", "pb+"):
         q = float(round(p))
-        if q >= 15 and (q < pb) == (p < pb):
+        # (a whole number that lands within rounding distance below p_b - e.g. 51 for p_b = 51 + 2 ulp - sits in the
+        # sliver where the parent's value is decided by rounding, see "pb-")
+        if q >= 15 and (q < pb) == (p < pb) and not (0 < pb - q < 1e-12 * pb):
             p = q
         else:
             form = "float"
